@@ -248,7 +248,7 @@ func TestVerif_C11(t *testing.T) {
 		pass := ""
 		var mws [2]*cors.Middleware
 		if l.Batch < len(prod) {
-			if (l.Batch+int(r.Seed))%cfgStride != 0 {
+			if !r.visit(l.Batch, cfgStride) {
 				return
 			}
 			spec = prod[l.Batch]
